@@ -4,14 +4,431 @@ K: generated VCFs x histories of runs (each run = constructor flags + query sequ
 real class (tools/impl_c18.py) and on the extracted Coq model (mode 0); answers and the cache files left on
 disk must agree exactly.  Under the theorems' precondition the answers must also equal the mode-independent
 specification (Coq spec_run, mode 3) and its python transcription used by search()."""
-import itertools, json, os, random, time
+import ast, hashlib, itertools, json, os, random, time
 from concurrent.futures import ThreadPoolExecutor
-import fw
+import fw, py2coq
+from py2coq import Untranslatable
 
 SRC = 'singlecellmultiomics/alleleTools/alleleTools.py'
 LETTERS = 'UVWXYZ'
 SPACE = set(list(range(9, 14)) + list(range(28, 33)) + [133, 160, 5760] + list(range(8192, 8203)) +
             [8232, 8233, 8239, 8287, 12288])
+
+
+# ============================================================================= T: translator tie
+# The kernel the refinement proof hinges on is regenerated from the current source into coq/Gen/GenAlleles.v on
+# every run; the machine of Model/C18.v is written WITH these definitions; Proofs/C18_s.v ("shape lemmas") connects
+# them to the reference definitions the specification and the large proofs use.  Statement shapes that are not
+# recognised raise Untranslatable (fail closed): the Gen file is removed and nothing is proved for that source.
+CLS = 'AlleleResolver'
+
+
+def _sha(t):
+    return hashlib.sha256(t.encode()).hexdigest()
+
+
+def U(n):
+    return ast.unparse(n)
+
+
+def codes(s):
+    return '[' + '; '.join(str(ord(ch)) for ch in s) + ']'
+
+
+class _Gen:
+    def __init__(self, repo):
+        self.path = os.path.join(repo, SRC)
+        self.src = open(self.path).read()
+        self.tree = ast.parse(self.src)
+        self.chunks, self.meta = [], []
+
+    def fn(self, name):
+        f = py2coq.find_function(self.tree, CLS + '.' + name)
+        if not isinstance(f, ast.FunctionDef):
+            raise Untranslatable('%s is not a function' % name)
+        return f
+
+    def emit(self, node, coqname, params, body, note=''):
+        seg = ast.get_source_segment(self.src, node) or U(node)
+        self.chunks.append('(* source: %s line %d-%d sha256 %s %s\n   %s *)\nDefinition %s %s :=\n  %s.' % (
+            SRC, node.lineno, node.end_lineno, _sha(seg), note, ' '.join(seg.split()).replace('*)', '* )').replace('(*', '( *')[:300],
+            coqname, params, body))
+        self.meta.append({'source': SRC, 'lines': [node.lineno, node.end_lineno], 'sha256': _sha(seg), 'coq': coqname})
+
+    # ---- small recognisers
+    @staticmethod
+    def is_verbose(st):
+        return isinstance(st, ast.If) and U(st.test) == 'self.verbose' and not st.orelse and \
+            all(isinstance(x, ast.Expr) and isinstance(x.value, ast.Call) and U(x.value.func) == 'print' for x in st.body)
+
+    def plain(self, stmts):
+        """statements without docstrings, verbose prints and `pass`"""
+        out = []
+        for st in stmts:
+            if isinstance(st, ast.Expr) and isinstance(st.value, ast.Constant) and isinstance(st.value.value, str):
+                continue
+            if self.is_verbose(st) or isinstance(st, ast.Pass):
+                continue
+            out.append(st)
+        return out
+
+    def expect(self, cond, what):
+        if not cond:
+            raise Untranslatable(what)
+
+    def bexp(self, node, env, bools=()):
+        tr = py2coq.ExprTranslator(env=env, bool_names=bools)
+        return tr.b(node)
+
+    def zexp(self, node, env):
+        return py2coq.ExprTranslator(env=env).z(node)
+
+    def const_str(self, node, what):
+        self.expect(isinstance(node, ast.Constant) and isinstance(node.value, str), '%s: expected a string constant, got %s' % (what, U(node)[:80]))
+        return node.value
+
+    def fstring(self, node, env, what):
+        """f'..{x}..' / plain constant / a + b  ->  Coq list Z expression over the names in env (keys: unparsed sub-expressions)"""
+        u = U(node)
+        if u in env:
+            return env[u]
+        if isinstance(node, ast.Constant) and isinstance(node.value, str):
+            return codes(node.value)
+        if isinstance(node, ast.JoinedStr):
+            parts = []
+            for v in node.values:
+                if isinstance(v, ast.Constant):
+                    parts.append(codes(v.value))
+                elif isinstance(v, ast.FormattedValue) and v.conversion == -1 and v.format_spec is None:
+                    parts.append(self.fstring(v.value, env, what))
+                else:
+                    raise Untranslatable('%s: f-string part outside subset: %s' % (what, U(v)[:80]))
+            return '(' + ' ++ '.join(parts or ['[]']) + ')'
+        if isinstance(node, ast.BinOp) and isinstance(node.op, ast.Add):
+            return '(%s ++ %s)' % (self.fstring(node.left, env, what), self.fstring(node.right, env, what))
+        raise Untranslatable('%s: string expression outside subset: %s' % (what, u[:120]))
+
+    def bad_chain(self, stmts, env, bools, what):
+        """a sequence of if/elif/else statements whose leaves assign True/False to `bad`  ->  let-chain over bad"""
+        def leaf(body, cur):
+            for st in body:
+                cur = one(st, cur)
+            return cur
+
+        def one(st, cur):
+            if isinstance(st, ast.Assign) and len(st.targets) == 1 and U(st.targets[0]) == 'bad' and \
+                    isinstance(st.value, ast.Constant) and isinstance(st.value.value, bool):
+                return 'true' if st.value.value else 'false'
+            if isinstance(st, ast.If):
+                return '(if %s then %s else %s)' % (self.bexp(st.test, env, bools), leaf(st.body, cur), leaf(st.orelse, cur))
+            raise Untranslatable('%s: statement outside subset: %s' % (what, U(st)[:100]))
+        lets = []
+        for st in stmts:
+            lets.append('let bad := %s in' % one(st, 'bad'))
+        return '\n  '.join(lets + ['bad'])
+
+    # ---- __init__
+    def init(self):
+        cls = [c for c in self.tree.body if isinstance(c, ast.ClassDef) and c.name == CLS]
+        self.expect(len(cls) == 1, 'class %s not found' % CLS)
+        for st in cls[0].body:
+            if isinstance(st, (ast.Assign, ast.AnnAssign, ast.AugAssign)) and 'locationToAllele' in U(st):
+                raise Untranslatable('locationToAllele is assigned at class level (line %d): the table would be shared by all '
+                                     'resolver objects; only a per-instance table is modelled' % st.lineno)
+        f = self.fn('__init__')
+        top = self.plain(f.body)
+        ret = [i for i, st in enumerate(top) if isinstance(st, ast.If) and U(st.test) == 'vcffile is None']
+        self.expect(len(ret) == 1 and U(top[ret[0]].body[0]) == 'return', '__init__: expected `if vcffile is None: return`')
+        tab = [i for i, st in enumerate(top) if U(st) == 'self.locationToAllele = get_allele_dict()']
+        self.expect(len(tab) == 1 and tab[0] < ret[0], '__init__: expected one unconditional `self.locationToAllele = get_allele_dict()` '
+                    'before the early return (per-instance table)')
+        self.emit(top[tab[0]], 'g_table_per_instance', ': bool', 'true')
+        uc = [st for st in top if isinstance(st, ast.If) and U(st.test) == 'use_cache']
+        self.expect(len(uc) == 1 and not uc[0].orelse, '__init__: expected one `if use_cache:`')
+        body = [U(x) for x in uc[0].body]
+        self.expect('lazyLoad = True' in body and set(body) <= {'lazyLoad = True', 'self.lazyLoad = True'},
+                    '__init__: body of `if use_cache:` is %r' % (body,))
+        first = [i for i, st in enumerate(top) if U(st) == 'self.lazyLoad = lazyLoad']
+        self.expect(len(first) == 1 and first[0] < top.index(uc[0]), '__init__: expected `self.lazyLoad = lazyLoad` before `if use_cache:`')
+        others = [st for st in ast.walk(f) if isinstance(st, ast.Assign) and U(st.targets[0]) == 'self.lazyLoad'
+                  and U(st) not in ('self.lazyLoad = lazyLoad', 'self.lazyLoad = True')]
+        self.expect(not others, '__init__: further assignment to self.lazyLoad: %s' % (others and U(others[0])))
+        self.emit(uc[0], 'g_cache_forces_lazy', ': bool', 'true' if 'self.lazyLoad = True' in body else 'false',
+                  note='(use_cache also sets self.lazyLoad)')
+        # eager load:  if uglyMode: ... else: if not lazyLoad: self.fetchChromosome(vcffile, chrom)
+        last = top[-1]
+        self.expect(isinstance(last, ast.If) and U(last.test) == 'uglyMode' and len(self.plain(last.orelse)) == 1, '__init__: expected final `if uglyMode: ... else: ...`')
+        el = self.plain(last.orelse)[0]
+        self.expect(isinstance(el, ast.If) and U(el.test) == 'not lazyLoad' and [U(x) for x in self.plain(el.body)] == ['self.fetchChromosome(vcffile, chrom)']
+                    and not self.plain(el.orelse), '__init__: eager branch is not `if not lazyLoad: self.fetchChromosome(vcffile, chrom)`')
+
+    # ---- fetchChromosome
+    def fetch(self):
+        f = self.fn('fetchChromosome')
+        self.expect([a.arg for a in f.args.args] == ['self', 'vcffile', 'chrom', 'clear'], 'fetchChromosome: arguments')
+        top = self.plain(f.body)
+        names = [U(st)[:60] for st in top]
+        self.expect(len(top) == 10, 'fetchChromosome: expected 10 top-level statements, found %d: %r' % (len(top), names))
+        clr, cln, flag0, flagif, cacheif, sent, untr, added, withst, wr = top
+        self.expect(isinstance(clr, ast.If) and U(clr.test) == 'clear' and [U(x) for x in clr.body] == ['self.locationToAllele = get_allele_dict()']
+                    and not clr.orelse, 'fetchChromosome: first statement is not `if clear: self.locationToAllele = get_allele_dict()`')
+        self.expect(U(cln) == 'vcffile = self.clean_vcf_name(vcffile)', 'fetchChromosome: second statement')
+        self.expect(U(flag0) == 'write_cache_file_flag = False', 'fetchChromosome: write_cache_file_flag initialisation')
+        # which contigs are cached
+        self.expect(isinstance(flagif, ast.If) and U(flagif.test) == 'self.use_cache' and not flagif.orelse and len(flagif.body) == 1
+                    and isinstance(flagif.body[0], ast.If), 'fetchChromosome: `if self.use_cache:` deciding write_cache_file_flag')
+        inner = flagif.body[0]
+        self.expect([U(x) for x in inner.body] == ['write_cache_file_flag = False'] and [U(x) for x in inner.orelse] == ['write_cache_file_flag = True'],
+                    'fetchChromosome: branches of the contig-name test')
+        vals = inner.test.values if isinstance(inner.test, ast.BoolOp) and isinstance(inner.test.op, ast.Or) else [inner.test]
+        rules = []
+        for v in vals:
+            if isinstance(v, ast.Call) and U(v.func) in ('chrom.startswith', 'chrom.endswith') and len(v.args) == 1 and not v.keywords:
+                rules.append('(%d, %s)' % (0 if U(v.func).endswith('startswith') else 1, codes(self.const_str(v.args[0], 'contig rule'))))
+            elif isinstance(v, ast.Compare) and len(v.ops) == 1 and isinstance(v.ops[0], ast.In) and U(v.comparators[0]) == 'chrom':
+                rules.append('(2, %s)' % codes(self.const_str(v.left, 'contig rule')))
+            else:
+                raise Untranslatable('fetchChromosome: contig-name rule outside subset: %s' % U(v))
+        self.emit(inner.test, 'g_nocache_rules', ': list (Z * list Z)', '[' + '; '.join(rules) + ']',
+                  note='(0 startswith, 1 endswith, 2 contains: such contigs are never cached)')
+        # the cache block
+        self.expect(isinstance(cacheif, ast.If) and U(cacheif.test) == 'self.use_cache and write_cache_file_flag' and not cacheif.orelse,
+                    'fetchChromosome: `if self.use_cache and write_cache_file_flag:`')
+        cb = self.plain(cacheif.body)
+        self.expect(len(cb) == 8, 'fetchChromosome: cache block has %d statements: %r' % (len(cb), [U(x)[:50] for x in cb]))
+        adir, mk, name0, selif, phif, igif, suffix, exists = cb
+        self.expect(U(adir) == "allele_dir = f'{os.path.abspath(vcffile)}_allele_cache/'", 'cache directory: %s' % U(adir))
+        self.expect(isinstance(mk, ast.If) and U(mk.test) == 'not os.path.exists(allele_dir)', 'cache directory creation')
+        self.expect(U(name0) == "cache_file_name = f'{allele_dir}/{chrom}'", 'cache file name starts as %s' % U(name0))
+        self.expect(isinstance(selif, ast.If) and U(selif.test) == 'self.select_samples is not None' and not selif.orelse and len(selif.body) == 2,
+                    'cache name: selection part')
+        sid, app = selif.body
+        self.expect(isinstance(sid, ast.Assign) and U(sid.targets[0]) == 'sample_list_id' and isinstance(sid.value, ast.Call)
+                    and isinstance(sid.value.func, ast.Attribute) and sid.value.func.attr == 'join'
+                    and [U(a) for a in sid.value.args] == ['sorted(list(self.select_samples))'], 'cache name: sample_list_id = %s' % U(sid.value))
+        self.emit(sid, 'g_name_sel_join', ': list Z', codes(self.const_str(sid.value.func.value, 'join')))
+        self.expect(isinstance(app, ast.Assign) and U(app.targets[0]) == 'cache_file_name', 'cache name: selection append')
+        self.emit(app, 'g_name_sel', '(name ids : list Z) : list Z', self.fstring(app.value, {'cache_file_name': 'name', 'sample_list_id': 'ids'}, 'cache name'))
+
+        def aug(st, test, what):
+            self.expect(isinstance(st, ast.If) and U(st.test) == test and not st.orelse and len(st.body) == 1
+                        and isinstance(st.body[0], ast.AugAssign) and isinstance(st.body[0].op, ast.Add)
+                        and U(st.body[0].target) == 'cache_file_name', 'cache name: %s part' % what)
+            return st.body[0].value
+        v = aug(phif, 'not self.phased', 'phased')
+        self.emit(phif, 'g_name_unphased', ': list Z', self.fstring(v, {}, 'cache name'))
+        v = aug(igif, 'self.ignore_conversions', 'ignore_conversions')
+        self.expect(isinstance(v, ast.BinOp) and isinstance(v.op, ast.Add) and isinstance(v.right, ast.Call)
+                    and isinstance(v.right.func, ast.Attribute) and v.right.func.attr == 'join' and len(v.right.args) == 1,
+                    'cache name: ignore part is %s' % U(v))
+        self.emit(v.left, 'g_name_ignore_prefix', ': list Z', codes(self.const_str(v.left, 'ignore prefix')))
+        self.emit(v.right.func, 'g_name_ignore_join', ': list Z', codes(self.const_str(v.right.func.value, 'join')))
+        srt = v.right.args[0]
+        self.expect(isinstance(srt, ast.Call) and U(srt.func) == 'sorted' and len(srt.args) == 1 and isinstance(srt.args[0], ast.GeneratorExp)
+                    and len(srt.args[0].generators) == 1 and U(srt.args[0].generators[0].target) == '(ref, alt)'
+                    and U(srt.args[0].generators[0].iter) == 'self.ignore_conversions' and not srt.args[0].generators[0].ifs,
+                    'cache name: ignore part is not sorted(<f-string> for ref, alt in self.ignore_conversions)')
+        self.emit(srt.args[0].elt, 'g_name_conv', '(ref alt : list Z) : list Z', self.fstring(srt.args[0].elt, {'ref': 'ref', 'alt': 'alt'}, 'conversion name'))
+        self.expect(isinstance(suffix, ast.AugAssign) and U(suffix.target) == 'cache_file_name' and isinstance(suffix.op, ast.Add), 'cache name: suffix')
+        self.emit(suffix, 'g_name_suffix', ': list Z', codes(self.const_str(suffix.value, 'suffix')))
+        self.expect(isinstance(exists, ast.If) and U(exists.test) == 'os.path.exists(cache_file_name)' and not exists.orelse
+                    and [U(x) for x in self.plain(exists.body)] == ['self.read_cached(cache_file_name, chrom)', 'return'],
+                    'fetchChromosome: an existing cache file is not simply read and returned')
+        # sentinel
+        self.expect(isinstance(sent, ast.Expr) and isinstance(sent.value, ast.Call) and isinstance(sent.value.func, ast.Attribute)
+                    and sent.value.func.attr == 'add' and len(sent.value.args) == 1, 'fetchChromosome: sentinel statement: %s' % U(sent))
+        sub = sent.value.func.value
+        self.expect(isinstance(sub, ast.Subscript) and isinstance(sub.value, ast.Subscript) and U(sub.value.value) == 'self.locationToAllele[chrom]',
+                    'fetchChromosome: sentinel statement: %s' % U(sent))
+        self.emit(sent, 'g_sentinel_pos', ': Z', self.zexp(sub.value.slice, {}))
+        self.emit(sent, 'g_sentinel_base', ': list Z', codes(self.const_str(sub.slice, 'sentinel base')))
+        self.emit(sent, 'g_sentinel_name', ': list Z', codes(self.const_str(sent.value.args[0], 'sentinel name')))
+        self.expect(U(untr) == 'unTrusted = []' and U(added) == 'added = 0', 'fetchChromosome: unTrusted / added')
+        # writing the cache
+        self.expect(isinstance(wr, ast.If) and U(wr.test) == 'self.use_cache and write_cache_file_flag' and not wr.orelse, 'fetchChromosome: final cache write test')
+        wb = self.plain(wr.body)
+        self.expect(len(wb) == 1 and isinstance(wb[0], ast.Try) and [U(x) for x in self.plain(wb[0].body)] == ['self.write_cache(cache_file_name, chrom)'],
+                    'fetchChromosome: final cache write')
+        # the record loop
+        self.expect(isinstance(withst, ast.With) and U(withst.items[0].context_expr) == 'pysam.VariantFile(vcffile)' and len(withst.body) == 1
+                    and isinstance(withst.body[0], ast.Try) and len(withst.body[0].body) == 1 and isinstance(withst.body[0].body[0], ast.For),
+                    'fetchChromosome: `with pysam.VariantFile(vcffile) as v: try: for rec in ...`')
+        tr = withst.body[0]
+        self.expect(all(len(h.body) == 1 and isinstance(h.body[0], ast.Raise) for h in tr.handlers) and not tr.orelse and not tr.finalbody,
+                    'fetchChromosome: exceptions of the record loop are not simply re-raised')
+        loop = tr.body[0]
+        self.expect(U(loop.target) == 'rec' and U(loop.iter) == 'v.fetch(chrom, start=self.region_start, stop=self.region_end)' and not loop.orelse,
+                    'fetchChromosome: record loop is `for %s in %s`' % (U(loop.target), U(loop.iter)))
+        self.record(self.plain(loop.body))
+
+    def record(self, rb):
+        self.expect(len(rb) == 6, 'record loop body has %d statements: %r' % (len(rb), [U(x)[:50] for x in rb]))
+        self.expect([U(x) for x in rb[:3]] == ['used = False', 'bad = False', 'bases_to_alleles = collections.defaultdict(set)'],
+                    'record loop does not start with used = False; bad = False; bases_to_alleles = defaultdict(set): %r' % [U(x)[:40] for x in rb[:3]])
+        ph, ig, st = rb[3:]
+        self.expect(isinstance(ph, ast.If) and U(ph.test) == 'self.phased' and len(ph.body) == 1 and isinstance(ph.body[0], ast.If)
+                    and U(ph.body[0].test) == 'len(rec.samples) == 0', 'record loop: `if self.phased:` / `if len(rec.samples)==0:`')
+        pb = self.plain(ph.body[0].orelse)
+        self.expect(len(pb) == 6, 'phased branch has %d statements: %r' % (len(pb), [U(x)[:50] for x in pb]))
+        self.expect([U(x) for x in pb[:3]] == ['samples_assigned = set()', 'most_assigned_base = 0', 'monomorphic = False'],
+                    'phased branch of the record loop does not start with samples_assigned = set(); most_assigned_base = 0; monomorphic = False '
+                    '(the per-record reset of `monomorphic`): %r' % [U(x)[:40] for x in pb[:3]])
+        sl = pb[3]
+        self.expect(isinstance(sl, ast.For) and U(sl.target) == '(sample, sampleData)' and U(sl.iter) == 'rec.samples.items()' and not sl.orelse,
+                    'phased branch: sample loop')
+        sb = self.plain(sl.body)
+        self.expect(len(sb) == 2 and isinstance(sb[0], ast.If) and [U(x) for x in sb[0].body] == ['continue'] and not sb[0].orelse,
+                    'sample loop: expected `if <selection test>: continue` then the allele loop')
+        self.emit(sb[0].test, 'g_select_skip', '(sel_some in_sel : bool) : bool',
+                  self.bexp(sb[0].test, {'self.select_samples is not None': 'sel_some', 'sample not in self.select_samples': '(negb in_sel)',
+                                         'sample in self.select_samples': 'in_sel'}))
+        al = sb[1]
+        self.expect(isinstance(al, ast.For) and U(al.target) == 'base' and U(al.iter) == 'sampleData.alleles' and not al.orelse, 'allele loop')
+        ab = self.plain(al.body)
+        self.expect(len(ab) == 2 and isinstance(ab[0], ast.If) and U(ab[0].test) == 'base is None' and not ab[0].orelse and len(ab[0].body) == 2
+                    and U(ab[0].body[0]) == 'monomorphic = True' and isinstance(ab[0].body[1], (ast.Continue, ast.Break)),
+                    'allele loop: expected `if base is None: monomorphic=True; continue`')
+        self.emit(ab[0], 'g_missing_break', ': bool', 'true' if isinstance(ab[0].body[1], ast.Break) else 'false',
+                  note='(a missing allele ends the allele loop of that sample)')
+        one = ab[1]
+        self.expect(isinstance(one, ast.If) and [U(x) for x in one.body] == ['bases_to_alleles[base].add(sample)', 'used = True', 'samples_assigned.add(sample)']
+                    and [U(x) for x in self.plain(one.orelse)] == ['bad = True'], 'allele loop: single-base / multi-base branches: %s' % U(one)[:200])
+        self.emit(one.test, 'g_single', '(n : Z) : bool', self.bexp(one.test, {'len(base)': 'n'}))
+        env = {'self.select_samples is not None': 'sel_some', 'len(samples_assigned)': 'nassigned', 'len(self.select_samples)': 'nsel',
+               'len(bases_to_alleles)': 'nbases', 'monomorphic': 'mono'}
+        self.emit(pb[4], 'g_bad_after', '(sel_some used : bool) (nassigned nsel : Z) (mono : bool) (nbases : Z) (bad : bool) : bool',
+                  self.bad_chain(pb[4:], env, ('used', 'monomorphic', 'bad'), 'flag logic after the sample loop'),
+                  note='(the statements after the sample loop, first of %d)' % len(pb[4:]))
+        # unphased
+        ub = self.plain(ph.orelse)
+        self.expect(len(ub) == 1 and isinstance(ub[0], ast.If), 'unphased branch')
+        ut = ub[0].test
+        self.expect(isinstance(ut, ast.UnaryOp) and isinstance(ut.op, ast.Not) and isinstance(ut.operand, ast.Call) and U(ut.operand.func) == 'all'
+                    and len(ut.operand.args) == 1 and isinstance(ut.operand.args[0], ast.GeneratorExp)
+                    and U(ut.operand.args[0].generators[0].target) == 'allele' and U(ut.operand.args[0].generators[0].iter) == 'rec.alleles'
+                    and not ut.operand.args[0].generators[0].ifs and [U(x) for x in ub[0].body] == ['bad = True'], 'unphased branch: SNV test')
+        self.emit(ut.operand.args[0].elt, 'g_unphased_single', '(n : Z) : bool', self.bexp(ut.operand.args[0].elt, {'len(allele)': 'n'}))
+        ue = self.plain(ub[0].orelse)
+        self.expect(len(ue) == 2 and U(ue[0]) == 'bad = False' and isinstance(ue[1], ast.For) and U(ue[1].target) == '(allele, base)'
+                    and isinstance(ue[1].iter, ast.Call) and U(ue[1].iter.func) == 'zip' and len(ue[1].iter.args) == 2 and U(ue[1].iter.args[1]) == 'rec.alleles'
+                    and [U(x) for x in ue[1].body] == ['bases_to_alleles[base].add(allele)', 'used = True'], 'unphased branch: naming loop')
+        self.emit(ue[1].iter.args[0], 'g_letters', ': list Z', codes(self.const_str(ue[1].iter.args[0], 'allele letters')))
+        # ignore_conversions
+        self.expect(isinstance(ig, ast.If) and not ig.orelse and len(ig.body) == 1, 'ignore_conversions step')
+        self.emit(ig.test, 'g_ignore_guard', '(bad ign_some : bool) : bool',
+                  self.bexp(ig.test, {'self.ignore_conversions is not None': 'ign_some'}, ('bad',)))
+        a = ig.body[0]
+        ok = (isinstance(a, ast.Assign) and U(a.targets[0]) == 'bad' and isinstance(a.value, ast.Call) and U(a.value.func) == 'any'
+              and len(a.value.args) == 1 and isinstance(a.value.args[0], ast.GeneratorExp))
+        self.expect(ok, 'ignore_conversions step: %s' % U(a)[:120])
+        ge = a.value.args[0]
+        self.expect(len(ge.generators) == 1 and U(ge.generators[0].target) == 'base' and U(ge.generators[0].iter) == 'bases_to_alleles'
+                    and not ge.generators[0].ifs and isinstance(ge.elt, ast.Compare) and len(ge.elt.ops) == 1 and isinstance(ge.elt.ops[0], ast.In)
+                    and U(ge.elt.comparators[0]) == 'self.ignore_conversions' and isinstance(ge.elt.left, ast.Tuple) and len(ge.elt.left.elts) == 2
+                    and all(U(e) in ('rec.ref', 'base') for e in ge.elt.left.elts), 'ignore_conversions test: %s' % U(ge)[:160])
+        nm = {'rec.ref': 'ref', 'base': 'base'}
+        self.emit(ge.elt, 'g_ignore_key', '(ref base : list Z) : list Z * list Z', '(%s, %s)' % tuple(nm[U(e)] for e in ge.elt.left.elts))
+        # store
+        self.expect(isinstance(st, ast.If) and not st.orelse and len(st.body) == 2 and U(st.body[1]) == 'added += 1'
+                    and isinstance(st.body[0], ast.Assign) and U(st.body[0].value) == 'bases_to_alleles'
+                    and isinstance(st.body[0].targets[0], ast.Subscript) and U(st.body[0].targets[0].value) == 'self.locationToAllele[rec.chrom]',
+                    'store step: %s' % U(st)[:160])
+        self.emit(st.test, 'g_store', '(used bad : bool) : bool', self.bexp(st.test, {}, ('used', 'bad')))
+        self.emit(st.body[0], 'g_store_pos', '(pos : Z) : Z', self.zexp(st.body[0].targets[0].slice, {'rec.pos': 'pos'}))
+
+    # ---- write_cache / read_cached
+    def cache_io(self):
+        f = self.fn('write_cache')
+        b = self.plain(f.body)
+        self.expect(len(b) == 3 and U(b[0]) == "temp_path = path + '.unfinished'" and U(b[2]) == 'os.rename(temp_path, path)'
+                    and isinstance(b[1], ast.With) and U(b[1].items[0].context_expr) == "gzip.open(temp_path, 'wt')" and len(b[1].body) == 1,
+                    'write_cache: expected temp file, one `with gzip.open(temp_path, \'wt\')`, rename')
+        l1 = b[1].body[0]
+        self.expect(isinstance(l1, ast.For) and U(l1.target) == 'position' and U(l1.iter) == 'sorted(list(self.locationToAllele[chrom].keys()))'
+                    and len(l1.body) == 1 and not l1.orelse, 'write_cache: the loop over positions is not `for position in sorted(list(keys)):` with one statement '
+                    '(every position of the contig is written): %s' % U(l1)[:200])
+        l2 = l1.body[0]
+        self.expect(isinstance(l2, ast.For) and U(l2.target) == 'base' and U(l2.iter) == 'self.locationToAllele[chrom][position]' and len(l2.body) == 1
+                    and not l2.orelse and isinstance(l2.body[0], ast.Expr) and isinstance(l2.body[0].value, ast.Call)
+                    and U(l2.body[0].value.func) == 'f.write' and len(l2.body[0].value.args) == 1, 'write_cache: the loop over bases')
+        line = l2.body[0].value.args[0]
+        joins = [n for n in ast.walk(line) if isinstance(n, ast.Call) and isinstance(n.func, ast.Attribute) and n.func.attr == 'join']
+        self.expect(len(joins) == 1 and [U(a) for a in joins[0].args] == ['sorted(list(self.locationToAllele[chrom][position][base]))'],
+                    'write_cache: samples are not written as <sep>.join(sorted(list(samples)))')
+        self.emit(joins[0], 'g_sample_join', ': Z', str(ord(self.const_str(joins[0].func.value, 'sample separator')))
+                  if len(self.const_str(joins[0].func.value, 'sample separator')) == 1 else self.expect(False, 'sample separator is not one character'))
+        self.emit(line, 'g_line', '(pos base samples : list Z) : list Z',
+                  self.fstring(line, {'position': 'pos', 'base': 'base', U(joins[0]): 'samples'}, 'cache line'))
+        f = self.fn('read_cached')
+        b = self.plain(f.body)
+        self.expect(len(b) == 1 and isinstance(b[0], ast.With) and U(b[0].items[0].context_expr) == "gzip.open(path, 'rt')" and len(b[0].body) == 1
+                    and isinstance(b[0].body[0], ast.For) and U(b[0].body[0].target) == 'line' and U(b[0].body[0].iter) == 'f', 'read_cached: file loop')
+        lb = self.plain(b[0].body[0].body)
+        self.expect(len(lb) == 5, 'read_cached: loop body has %d statements: %r' % (len(lb), [U(x)[:60] for x in lb]))
+        sp, cv, skip, stop, store = lb
+        ok = (isinstance(sp, ast.Assign) and U(sp.targets[0]) == '(position, base, samples)' and isinstance(sp.value, ast.Call)
+              and U(sp.value.func) == 'line.strip().split' and 1 <= len(sp.value.args) <= 2 and not sp.value.keywords)
+        self.expect(ok, 'read_cached: field split: %s' % U(sp)[:120])
+        sep = self.const_str(sp.value.args[0], 'field separator')
+        self.expect(len(sep) == 1, 'field separator is not one character')
+        if len(sp.value.args) == 2:
+            self.expect(isinstance(sp.value.args[1], ast.Constant) and sp.value.args[1].value == 3, 'read_cached: maxsplit is not 3')
+        self.emit(sp, 'g_field_sep', ': Z', str(ord(sep)))
+        self.expect(U(cv) == 'position = int(position)', 'read_cached: position = int(position)')
+        self.expect(isinstance(skip, ast.If) and [U(x) for x in skip.body] == ['continue'] and not skip.orelse, 'read_cached: region_start filter')
+        self.expect(isinstance(stop, ast.If) and [U(x) for x in stop.body] == ['break'] and not stop.orelse, 'read_cached: region_end filter')
+        self.emit(skip.test, 'g_read_skip', '(has_start : bool) (position start : Z) : bool',
+                  self.bexp(skip.test, {'self.region_start is not None': 'has_start', 'self.region_start': 'start'}))
+        self.emit(stop.test, 'g_read_stop', '(has_end : bool) (position end_ : Z) : bool',
+                  self.bexp(stop.test, {'self.region_end is not None': 'has_end', 'self.region_end': 'end_'}))
+        ok = (isinstance(store, ast.Assign) and U(store.targets[0]) == 'self.locationToAllele[chrom][position][base]' and isinstance(store.value, ast.Call)
+              and U(store.value.func) == 'set' and len(store.value.args) == 1 and isinstance(store.value.args[0], ast.Call)
+              and U(store.value.args[0].func) == 'samples.split' and len(store.value.args[0].args) == 1)
+        self.expect(ok, 'read_cached: store statement: %s' % U(store)[:120])
+        ssep = self.const_str(store.value.args[0].args[0], 'sample separator')
+        self.expect(len(ssep) == 1, 'sample separator is not one character')
+        self.emit(store, 'g_sample_split', ': Z', str(ord(ssep)))
+
+    # ---- the two lookups
+    def lookups(self):
+        for name in ('has_location', 'getAllelesAt'):
+            f = self.fn(name)
+            b = self.plain(f.body)
+            first = b[0]
+            ok = (isinstance(first, ast.If) and U(first.test) == 'self.lazyLoad and chrom not in self.locationToAllele' and not first.orelse
+                  and len(first.body) == 1 and isinstance(first.body[0], ast.Try)
+                  and [U(x) for x in first.body[0].body] == ['self.fetchChromosome(self.vcffile, chrom, clear=True)'] and len(first.body[0].handlers) == 1)
+            self.expect(ok, '%s: lazy fetch is not `if self.lazyLoad and chrom not in self.locationToAllele: try: self.fetchChromosome(self.vcffile, chrom, clear=True)`' % name)
+            hb = self.plain(first.body[0].handlers[0].body)
+            rest = [U(x) for x in b[1:]]
+            if name == 'has_location':
+                inv = [x for x in hb if isinstance(x, ast.If) and U(x.test) == "'invalid contig' in str(e)"]
+                self.expect(len(inv) == 1 and len(self.plain(inv[0].body)) == 1 and isinstance(self.plain(inv[0].body)[0], ast.Return)
+                            and isinstance(self.plain(inv[0].body)[0].value, ast.Constant) and isinstance(self.plain(inv[0].body)[0].value.value, bool),
+                            'has_location: the `invalid contig` handler does not return a constant')
+                self.emit(inv[0], 'g_has_invalid_contig', ': bool', 'true' if self.plain(inv[0].body)[0].value.value else 'false')
+                others = [x for x in hb if x is not inv[0] and not (isinstance(x, ast.If) and 'fetch requires an index' in U(x.test))
+                          and not (isinstance(x, ast.Expr) and U(x).startswith('print('))]
+                self.expect(not others, 'has_location: handler statement outside subset: %s' % (others and U(others[0])[:80]))
+                self.expect(rest == ['if chrom not in self.locationToAllele or pos not in self.locationToAllele[chrom]:\n    return False', 'return True'],
+                            'has_location: final tests: %r' % (rest,))
+            else:
+                others = [x for x in hb if not (isinstance(x, ast.If) and 'fetch requires an index' in U(x.test))
+                          and not (isinstance(x, ast.Expr) and U(x).startswith('print('))]
+                self.expect(not others, 'getAllelesAt: handler statement outside subset: %s' % (others and U(others[0])[:80]))
+                self.expect(rest == ['if chrom not in self.locationToAllele or pos not in self.locationToAllele[chrom]:\n    return None',
+                                     'if base not in self.locationToAllele[chrom][pos]:\n    return None',
+                                     'return self.locationToAllele[chrom][pos][base]'], 'getAllelesAt: final tests: %r' % (rest,))
+
+
+def regen_alleles():
+    g = _Gen(fw.REPO)
+    g.init()
+    g.fetch()
+    g.cache_io()
+    g.lookups()
+    py2coq.write_gen(os.path.join(fw.COQ, 'Gen', 'GenAlleles.v'), '', g.chunks)
+    return g.meta
 
 
 # ----------------------------------------------------------------------------- abstraction of a case
@@ -587,6 +1004,17 @@ class Prop(fw.PropBase):
     ID = 'C18'
     PROPS = 'Props/C18.v'
     TRUSTED = [
+        'T: tools/c18.py AST recognisers (regen_alleles -> coq/Gen/GenAlleles.v, 30 definitions): they locate, by position in '
+        '__init__ / fetchChromosome / write_cache / read_cached / has_location / getAllelesAt, the single-nucleotide tests, the '
+        'select_samples filter, continue-vs-break on a missing allele, the bad/monomorphic flag statements after the sample loop, '
+        'the guard and the (ref, base) key of the ignore_conversions step, the store test and position, the sentinel, the contig '
+        'rules and every piece of the cache file name, the cache line f-string, the field/sample separators and region filters '
+        'of read_cached, the invalid-contig result of has_location, that use_cache sets self.lazyLoad and that locationToAllele '
+        'is created per instance; they REFUSE (Untranslatable) other statement shapes (e.g. the per-record resets of '
+        'used/bad/monomorphic not at the head of the record loop, extra statements in the write_cache / read_cached loops, a '
+        'class-level table, clear != True in the lazy fetch); expressions go through py2coq.ExprTranslator / an f-string '
+        'translator.  The loop structure (fold over samples and alleles, dict updates, the state machine) stays hand modelled '
+        'around these pieces and is tied by K',
         'modelled not verified: pysam/htslib VCF parsing and tabix fetch (a record = chrom, pos, ref, alts, per-sample '
         'alleles in header order; fetch(c) = the records of contig c in file order, ValueError for a contig the file does '
         'not have) - the impl runner reports pysam\'s view of every generated record and K compares it with the abstraction',
@@ -604,6 +1032,18 @@ class Prop(fw.PropBase):
         'without selection and contig "chr1" with selection S1 do) - precondition names_ok, measured as precondition_hit_rate',
         'the VCF file is not modified between runs sharing a cache directory; cache writes succeed or leave no file',
     ]
+
+    def regen(self):
+        try:
+            return regen_alleles()
+        except BaseException:
+            # fail closed: never prove / run against definitions generated from another source
+            for ext in ('.v', '.vo', '.vos', '.vok', '.glob'):
+                try:
+                    os.remove(os.path.join(fw.COQ, 'Gen', 'GenAlleles' + ext))
+                except OSError:
+                    pass
+            raise
 
     # ---------------------------------------------------------------- case streams
     def corpus_cases(self):
